@@ -432,8 +432,9 @@ def run_c16(run):
                   ("4 user keys, <=4 L0 files, no compacting files", l0_consts(4, 4, [0]))]
         nrandom = 4000
     else:
-        scopes = [("4 user keys, <=4 L0 files, every compacting marking", l0_consts(4, 4, [0, 1, 2])),
-                  ("5 user keys, <=5 L0 files, no compacting files", l0_consts(5, 5, [0]))]
+        scopes = [("4 user keys, <=3 L0 files, every compacting marking {none,base,intra}", l0_consts(4, 3, [0, 1, 2])),
+                  ("4 user keys, <=4 L0 files, no compacting files", l0_consts(4, 4, [0])),
+                  ("5 user keys, <=3 L0 files, compacting markings {none,intra}", l0_consts(5, 3, [0, 2]))]
         nrandom = 100000
     tdir = vlib.scratch("verif.c16.")
     total_acc = total_vac = total_rej = 0
